@@ -39,6 +39,7 @@ type reqSpec struct {
 	extra                                               M
 	sdType                                              string
 	keyJWK                                              M // when set: the signing key image placed in the payload (and revealed)
+	keyExtra                                            M // members the key model does not have, added to the signed key after the reveal value was taken
 }
 
 type builtReq struct {
@@ -113,6 +114,16 @@ func buildReq(sp reqSpec, r *rand.Rand, algs []uint) builtReq {
 	}
 	reveal += sp.pad["revealValue"]
 	out.hashes["revealValue"] = reveal
+	if sp.keyExtra != nil {
+		withExtra := map[string]interface{}{}
+		for k, v := range curJWK {
+			withExtra[k] = v
+		}
+		for k, v := range sp.keyExtra {
+			withExtra[k] = v
+		}
+		curJWK = withExtra
+	}
 	switch sp.typ {
 	case "create":
 		sd := M{"deltaHash": deltaHash, "recoveryCommitment": recC}
@@ -368,8 +379,40 @@ func genParseCases(r *rand.Rand) []parseCase {
 			sp = defaultSpec(typ, r)
 			sp.patches = A{good, otherGood, M{"action": "add-services", "services": A{docService("s2", "T", "https://example.com/b")}}}
 			add("delta-several-valid-patches", cloneCfg(base), buildReq(sp, r, base.MultihashAlgorithms), typ, true)
+			// a delta whose canonical form is longer than the request that carries it (numbers in exponent
+			// form): the size limit is on the canonical delta
+			{
+				nums := A{}
+				for q := 0; q < 40; q++ {
+					nums = append(nums, 1e20)
+				}
+				svc := docService("wide", "T", "https://example.com/w")
+				svc["weights"] = nums
+				for _, over := range []bool{true, false} {
+					sp := defaultSpec(typ, r)
+					sp.patches = A{M{"action": "add-services", "services": A{svc}}}
+					b := buildReq(sp, r, base.MultihashAlgorithms)
+					canonLen := len(jcs(b.request["delta"]))
+					b.bytes = []byte(strings.ReplaceAll(string(b.bytes), "100000000000000000000", "1e20"))
+					c := cloneCfg(base)
+					c.MaxDeltaSize = uint(canonLen)
+					if over {
+						c.MaxDeltaSize = uint(canonLen - 1)
+					}
+					if len(b.bytes) <= int(c.MaxDeltaSize) {
+						add(map[bool]string{true: "delta-larger-than-its-request-over-limit", false: "delta-larger-than-its-request-at-limit"}[over], c, b, typ, !over)
+					}
+				}
+			}
 		}
 		if signed {
+			// members the signing key's model does not have (kid, use, alg, key_ops ...) are not part of the
+			// key: the reveal value is that of the key, and the request is accepted
+			for _, extra := range []M{{"kid": "key-1"}, {"use": "sig", "alg": "ES256"}, {"kid": "k", "key_ops": A{"verify"}, "ext": true}, {"d": "AA"}} {
+				sp := defaultSpec(typ, r)
+				sp.keyExtra = extra
+				add("signing-key-with-further-members", cloneCfg(base), buildReq(sp, r, base.MultihashAlgorithms), typ, true)
+			}
 			for _, v := range []struct {
 				l      string
 				hdr    func(alg string) M
@@ -703,6 +746,11 @@ func genC03(seed int64, tier string) []caseOut {
 		b := buildReq(sp, r, algs)
 		tree := toJV(map[string]interface{}(b.request))
 		p := operationparser.New(cfg)
+		// the parser object has served other callers before: another namespace, and its own accessors
+		// (which parse without a namespace); what it answers now is about this request and this namespace
+		p.Parse("did:other:method", b.bytes)
+		p.GetCommitment(b.bytes)
+		p.GetRevealValue(b.bytes)
 		var variants []string
 		var recs []interface{}
 		mustRefuse := false
@@ -722,6 +770,14 @@ func genC03(seed int64, tier string) []caseOut {
 		addVariant("canonical", b.bytes, true)
 		addVariant("respelled", []byte(spell(tree, r, 1)), true)
 		addVariant("respelled", []byte(spell(tree, r, 2)), true)
+		// members a create request does not have are not part of it: the DID is still that of the suffix data
+		withStray := M{}
+		for k, v := range b.request {
+			withStray[k] = v
+		}
+		withStray["didSuffix"] = "EiAttackerChosenSuffixAAAAAAAAAAAAAAAAAAAAAAAA"
+		withStray["revealValue"] = "EiAttackerChosenRevealAAAAAAAAAAAAAAAAAAAAAAAA"
+		addVariant("stray-did-suffix-member", jcs(withStray), true)
 		// the anchored form of the accepted request is the same request: same suffix when parsed again
 		if mop, err := p.ParseOperation("did:ns", b.bytes, false); err == nil {
 			if aop, err := model.GetAnchoredOperation(mop); err == nil {
